@@ -12,7 +12,7 @@ From Coq Require Import ZArith Znumtheory.
 From mathcomp Require Import all_ssreflect all_algebra ssrZ.
 From V.Base Require Import PrimeBn256Order PrimeBridge.
 From V.C13 Require Import Model Proofs Bridge.
-From V.C15 Require Import Model Proofs Refute Bridge Proc.
+From V.C15 Require Import Model Proofs Refute Bridge Proc Ids R0.
 Import GRing.Theory.
 Local Open Scope ring_scope.
 Delimit Scope Z_scope with ZZ.
@@ -156,6 +156,70 @@ Theorem C15_arrival_store_eviction_refuted :
   phase_of (zproc [:: EvCast true; EvVerify 0%N honest2; EvTimeout; EvVerify 0%N honest3]) = Some Closed.
 Proof. exact: store_evicted_run. Qed.
 Print Assumptions C15_arrival_store_eviction_refuted.
+
+(* ======== round0: when is the cast message "accepted" (EvCast true of the arrival model) ========
+   Control flow of round0.Update / afterPreArrived / checkBlock with the callbacks for a missing
+   previous block and missing transactions; the predicates themselves (VRF prove = C16, castor
+   signature, group selection, VerifyBlock) are abstract booleans of the cast message. *)
+Theorem C15_round0_accepts_only_checked :
+  forall (c : cast) (evs : seq r0event), r0_run c evs = R0Ready ->
+  c_qn_ok c = true /\ c_checks_ok c = true /\ c_verify_ok c = true /\ c_existed c = false.
+Proof. exact: r0_ready_sound. Qed.
+Print Assumptions C15_round0_accepts_only_checked.
+
+Theorem C15_round0_accepts_on_every_path :
+  forall c : cast, r0_sound c ->
+  (c_pre_present c = true -> c_txs_present c = true -> r0_run c [:: R0CastMsg] = R0Ready) /\
+  (c_pre_present c = false -> c_txs_present c = true -> r0_run c [:: R0CastMsg; R0PreArrived] = R0Ready) /\
+  (c_pre_present c = true -> c_txs_present c = false ->
+   r0_run c [:: R0CastMsg; R0TxsArrived false; R0TxsArrived true] = R0Ready).
+Proof. exact: r0_ready_paths. Qed.
+Print Assumptions C15_round0_accepts_on_every_path.
+
+(* ======== message ids inside the party (CanAccept / StoreMessage / round1.Start) ========
+   While round0 is still checking, verify messages handed to the party are stored by id (a second
+   message with a stored id is refused); round1.Start replays the stored ones in an arbitrary order
+   [ford] and marks their ids processed whether or not they verified; afterwards a message with a
+   processed id is refused unread.  [idf] is the id function (net/msg_decode.go: hash of the raw
+   bytes). *)
+Definition ifinal_of (F : fieldType) (M : eqType) (H : M -> F) sel (I : eqType) ford :=
+  @ifinal F M (fops F) eq_op eq_op (fun x => x == 0) (fun x => x == 0) eq_op H sel I eq_op ford true.
+Arguments ifinal_of {F M} H sel {I} ford.
+
+(* The faulty members may send anything, any number of times, before or after the round starts: if no
+   message of the run carries the id of an honest member's valid message without being such a message
+   of that member (no hash collision on those byte strings), k honest members' messages - stored
+   while round0 was checking or delivered later - finalise the block. *)
+Theorem C15_ids_one_faulty_cannot_block :
+  forall (F : fieldType) (M : eqType) (H : M -> F) (sel : seq (F * F) -> seq nat) (I : eqType)
+         (ford : seq (I * @msg F M) -> seq (I * @msg F M)) (e : @env F M) (k : nat) (dealers : seq (seq F)),
+  all (fun cs => size cs <= k)%N dealers -> (0 < k)%N -> e_thr e = k ->
+  (forall id sk, lookup eq_op id (e_members e) = Some sk -> sk = member_key (fops F) dealers id) ->
+  e_gsk e = group_secret (fops F) dealers -> sel_any k sel ->
+  e_existed e = false -> [/\ e_gsk e != 0, H (e_bh e) != 0 & H (e_pr e) != 0] ->
+  (forall (p : I * @msg F M -> bool) l, count p (ford l) = count p l) ->
+  forall (idf : @msg F M -> I) (deliv ms : seq (@msg F M)),
+  no_collision H e idf (deliv ++ ms) ->
+  (k <= size (undup [seq m_sender m | m <- deliv ++ ms & honestb H e m]))%N ->
+  let pf := ifinal_of H sel ford e (map (fun m => (idf m, m)) deliv) (map (fun m => (idf m, m)) ms) in
+  p_phase pf = Finished /\ st_hdr (p_st pf) = Some (e_gsk e * H (e_bh e), e_gsk e * H (e_pr e)).
+Proof.
+move=> F M H sel I ford e k dealers dk k0 thr mem gsk so ne nz fp idf deliv ms nc kh.
+exact: (@id_live F M H sel I ford e k dealers dk k0 thr mem gsk so ne nz fp idf deliv ms nc kh).
+Qed.
+Print Assumptions C15_ids_one_faulty_cannot_block.
+
+(* With an id that depends only on unauthenticated fields (here: the signer id named in the message)
+   the theorem's hypothesis fails and so does the property: a faulty sender's message naming member 3,
+   stored first, makes member 3's genuine message refused unread (Z mod 101, group 1,2,3, threshold 2,
+   honest 2 and 3 delivered: the party stays collecting); with separating ids it finalises. *)
+Theorem C15_ids_unauthenticated_refuted :
+  p_phase (zifinal [:: (3, spoof3); (3, honest3)]%N [:: (2, honest2)]%N) = Collecting /\
+  p_phase (zifinal [:: (3, spoof3)]%N [:: (2, honest2); (3, honest3)]%N) = Collecting /\
+  p_phase (zifinal [:: (7, spoof3); (3, honest3)]%N [:: (2, honest2)]%N) = Finished /\
+  p_phase (zifinal [:: (7, spoof3)]%N [:: (2, honest2); (3, honest3)]%N) = Finished.
+Proof. exact: id_spoof_run. Qed.
+Print Assumptions C15_ids_unauthenticated_refuted.
 
 (* ======== the same theorems about the executable model the correspondence run evaluates ========
    [zmodel_final curve_order hs true e fut ms] is exactly what Harness.check computes for a run of the
